@@ -84,6 +84,7 @@ fn grid_create() -> Vec<CreateCase> {
                 InFile { name: "Blob_1.bin".into(), class: ContentClass::Random, len: 16384 + 5, seed: 7 + k as u32 },
                 InFile { name: "zero.dat".into(), class: ContentClass::Constant, len: if k % 2 == 0 { 0 } else { 40000 }, seed: 3 },
                 InFile { name: "low entropy.tbl".into(), class: ContentClass::LowEntropy, len: 3000, seed: 11 },
+                InFile { name: format!("{}.blp", "A_very_long_texture_name_".repeat(4)), class: ContentClass::Period, len: 777, seed: 12 },
             ];
             let extract = match k % 4 {
                 0 => ExtractOpts { threads: None, preserve: false, explicit: None, skip_errors: false },
@@ -295,8 +296,8 @@ fn main() {
         let ok = check.counter(&format!("valid:{k}:exit0"));
         let nz = check.counter(&format!("valid:{k}:nonzero"));
         if t.always_fails || t.never_ok {
-            if nz == 0 {
-                crate::inc(&check, &format!("stub template {k} was never run on a valid input"));
+            if nz + ok == 0 {
+                crate::inc(&check, &format!("template {k} was never run on a valid input"));
             }
         } else if ok == 0 {
             crate::inc(&check, &format!("template {k}: no valid input made the command exit 0 ({nz} valid runs exited non-zero) — the template or the fixture is wrong, exit-0 clauses were never judged"));
@@ -305,7 +306,7 @@ fn main() {
             crate::inc(&check, &format!("template {k}: the library rejected none of the damaged inputs (vacuous 'must exit non-zero' clause)"));
         }
     }
-    for must in ["extract:all", "extract:named", "extract:missing-noskip", "extract:missing-skip", "extract:preserve-dirs"] {
+    for must in ["list:name-longer-than-80", "extract:all", "extract:named", "extract:missing-noskip", "extract:missing-skip", "extract:preserve-dirs"] {
         if check.counter(must) == 0 {
             crate::inc(&check, &format!("no extraction case of class {must}"));
         }
